@@ -21,7 +21,7 @@ import contextlib
 import textwrap
 
 from ujvc.core import EngineSignal
-from ujvc.units import get, unit
+from ujvc.units import get, unit, user_value
 from ujvc.vc import BoolS, IntS, SInt
 from ujvc.z3env import z3
 
@@ -138,10 +138,15 @@ def _roundtrip_unit(cls):
         env = _rt_env(gfs)
         write = get(rel, f"{cls}.write").compile_into(env)
         read = get(rel, f"{cls}.read").compile_into(env)
-        s = _Self()
+        from ujvc.units import real_method_fallback
+
+        class S(_Self):     # helper methods a refactoring may add to the store class are taken from the real class and verified inline
+            __getattr__ = real_method_fallback(rel, cls, env, native_loops="all")
+
+        s = S()
         s.path = target
         s.encoding = object() if ctx.choose(2, "encoding") == 0 else None
-        value = None if cls == "TouchFileStore" else object()
+        value = None if cls == "TouchFileStore" else user_value("stored")
         has_cr = ctx.fresh(BoolS, "value_contains_CR")
         write(s, value)
         f = gfs.fs.get(gfs.target)
@@ -150,7 +155,9 @@ def _roundtrip_unit(cls):
             return "no-file"
         from .runphys import _catch
 
+        n_before_read = len(gfs.open_log)
         kind, r = _catch(ctx, lambda: read(s))
+        n_after_read = len(gfs.open_log)
         ctx.check(f"{cls}/read:succeeds-through-the-modelled-file-operations-after-a-write", bool(kind == "ret"),
                   info=f"read raised {r!r}: the file is not accessed through open() on the path that was written")
         if kind != "ret":
@@ -158,7 +165,7 @@ def _roundtrip_unit(cls):
         wpaths = list(gfs.write_kwargs)
         # whatever the staging file is called, it is private to this target: a sibling store whose target differs only in its extension
         # (result.txt / result.dat, the layout the documentation uses) stages somewhere else, and nobody stages into a target
-        s2 = _Self()
+        s2 = S()
         s2.path = type(target)("/d/target.dat")
         s2.encoding = s.encoding
         kind2, _r2 = _catch(ctx, lambda: write(s2, value))
@@ -167,7 +174,7 @@ def _roundtrip_unit(cls):
                   bool(len(wpaths) == 1 and kind2 == "ret" and len(wpaths2) == 1 and not ({wpaths[0], wpaths2[0]} & {gfs.target, "/d/target.dat"})),
                   info=f"opened for writing: {wpaths} then {wpaths2} for the sibling; two stores whose targets differ must never share a staging file")
         wmode, wkw = gfs.write_kwargs[wpaths[0]] if wpaths else ("", {})
-        reads = [e for e in gfs.open_log if "w" not in e[1]]
+        reads = [e for e in gfs.open_log[n_before_read:n_after_read] if "w" not in e[1]]      # what read() itself opened
         ctx.check(f"{cls}/read:opens-the-same-path-once", bool(len(reads) == 1 and reads[0][0] == gfs.target))
         if cls == "TouchFileStore":
             ctx.check(f"{cls}/roundtrip:None-comes-back", bool(r is None and f.chunks == ()))
@@ -390,7 +397,7 @@ def mounted_store_unit(ctx):
             raise
     read = get(MOUNT, "MountedStore.read").compile_into(env)
     write = get(MOUNT, "MountedStore.write").compile_into(env)
-    RESULT, VALUE = object(), object()
+    RESULT, VALUE = user_value("result"), user_value("value")
 
     class Under:
         def __init__(self, p):
@@ -538,6 +545,38 @@ REPLAY_SCRIPT = textwrap.dedent(
                 prev = m
             os.remove(jp)
             if js.get_modified_time() is not None: bad.append(("get_modified_time", "not None although nothing is stored"))
+    # through a MountedStore (a directory stands for the remote side): the same domain, including the values whose file is EMPTY
+    import shutil, datetime
+    from uberjob.stores import MountedStore
+    class DirMounted(MountedStore):
+        def __init__(self, create_store, remote):
+            super().__init__(create_store); self.remote = remote
+        def copy_to_local(self, local_path): shutil.copyfile(self.remote, local_path)
+        def copy_from_local(self, local_path): shutil.copyfile(local_path, self.remote)
+        def get_modified_time(self):
+            try: return datetime.datetime.fromtimestamp(os.path.getmtime(self.remote))
+            except OSError: return None
+    with tempfile.TemporaryDirectory() as d:
+        cases = [(TextFileStore, ["", "x", "a\\rb\\r\\nc", "\\n"]), (BinaryFileStore, [b"", b"\\x00", b"\\r\\n"]), (TouchFileStore, [None]),
+                 (JsonFileStore, [None, 0, False, "", [], {}, [0], {"a": ""}]), (PickleFileStore, [None, 0, "", (), [], {}, b""])]
+        for cls, values in cases:
+            for i, v in enumerate(values):
+                m = DirMounted(cls, os.path.join(d, "%s%d" % (cls.__name__, i)))
+                if m.get_modified_time() is not None: bad.append(("MountedStore", cls.__name__, "mtime before write")); continue
+                try:
+                    m.write(v); r = m.read()
+                except Exception as e:
+                    bad.append(("MountedStore", cls.__name__, v, "raised " + repr(e))); continue
+                if r != v or type(r) is not type(v): bad.append(("MountedStore", cls.__name__, v, r))
+                if m.get_modified_time() is None: bad.append(("MountedStore", cls.__name__, v, "mtime None after write"))
+    # the same path written again and again with values that are EQUAL but not the same (True == 1 == 1.0, 0 == False, [1] == [1.0], "" ...)
+    with tempfile.TemporaryDirectory() as d:
+        for cls, seq in ((JsonFileStore, [True, 1, 1.0, True, 0, False, 0.0, [1, 2], [1.0, 2.0], [True, 2], {"a": 1}, {"a": True}, "", None, [], {}]),
+                         (PickleFileStore, [True, 1, 1.0, (1,), [1], (1.0,), 0, False, "", b"", None, frozenset(), set()])):
+            st = cls(os.path.join(d, cls.__name__))
+            for v in seq:
+                st.write(v); r = st.read()
+                if r != v or type(r) is not type(v) or repr(r) != repr(v): bad.append((cls.__name__, "rewrite with an equal value of another type", v, r))
     for b in bad[:5]: print("C12 violated:", repr(b)[:300])
     sys.exit(1 if bad else 0)
     '''
